@@ -4,6 +4,8 @@ import PoaVerif.Witness.D2
 import PoaVerif.Props.C14
 import PoaVerif.Lemmas.Corollaries
 import PoaVerif.Lemmas.QuietEffect
+import PoaVerif.Lemmas.Quiet2.Effect
+import PoaVerif.Witness.Q2
 /-
   C03 — admin operations have exactly the requested effect, on the target only.
   FALSE of the code as stated (D1, D2, D6, D7); witnesses, and the handler-level part that holds.
@@ -140,5 +142,36 @@ example : quietBlockB Witness.D1.s1 Witness.D1.c1 Witness.D1.b2 = true ∧
     Witness.D1.b2.txs = [] ++ ⟨Signer.admin, 0, [Msg.setPower (some 0) 11000000 true]⟩ :: [] ∧
     Witness.D1.o2.txrs[0]? = some .ok ∧ alookup 0 Witness.D1.c2 = some ((11000000 / PR : Nat) : Int) :=
   ⟨by decide, rfl, by decide, by decide⟩
+
+/-! ### the wider class: removals included (`Lemmas/Quiet2`) -/
+
+/-- **C03, requested effect of SetPower and of RemoveValidator, along whole histories with removals**: from every
+    well-formed genesis, along every quiet history in the wider sense (`QuietHistory2`, see `Props.C02.c02_removals`),
+    block by block (`EffectAll2`): every successful single SetPower(op, p) of the admin leaves `op` with exactly `p`
+    tokens and CometBFT's set with exactly `p / 10^6` for its key; every successful single RemoveValidator(op) — by the
+    admin or by the operator itself — leaves CometBFT's set without the key `op`'s record had before the block, and `op`
+    with no record or an unbonding one for which the power query answers 0 -/
+theorem c03_effect_removals_partial (g : Genesis) (hw : g.wf = true) (bs : List Block) (hq : QuietHistory2 g bs) :
+    ∃ first steps, run genEnv g bs = some (first, steps, RunEnd.done) ∧ EffectAll2 first.app bs steps :=
+  quiet_history2_effect g hw bs hq
+
+/-- the same for one quiet block from any state satisfying the between-blocks invariant `G2` -/
+theorem c03_remove_effect_quiet_block (s : App) (c : CSet) (b : Block) (g : G2 s c) (q : QuietBlock2 s c b)
+    (pre post : List Tx) (tx : Tx) (op : Nat) (v : Val) (hb : b.txs = pre ++ tx :: post)
+    (hmsgs : tx.msgs = [.remove (some op)]) (hv : s.getVal op = some v) :
+    ∃ o s' c', App.block genEnv s b = .ok (o, s') ∧ Comet.applyChangeSet c o.updates = .ok c' ∧ G2 s' c' ∧
+      (o.txrs[pre.length]? = some .ok →
+        alookup v.key c' = none ∧
+        (s'.getVal op = none ∨ ∃ w, s'.getVal op = some w ∧ Unb w ∧ w.key = v.key ∧ s'.queryPower (some op) = some 0)) :=
+  quiet2_block_remove_effect s c b g q pre post tx op v hb hmsgs hv
+
+/-- non-vacuity (kernel-checked): in the second block of the witness history `Q2` the admin's RemoveValidator(2)
+    succeeds at position 0 and the SetPower(0, 12 000 000) at position 1; after the block CometBFT's set has no entry
+    under key 2 and holds 12 for key 0; validator 2's record is unbonding -/
+example : quietBlock2B Witness.Q2.s1 Witness.Q2.c1 Witness.Q2.b2 = true ∧
+    Witness.Q2.o2.txrs[0]? = some .ok ∧ Witness.Q2.o2.txrs[1]? = some .ok ∧
+    alookup 2 Witness.Q2.c2 = none ∧ alookup 0 Witness.Q2.c2 = some 12 ∧
+    (Witness.Q2.s2.getVal 2).map (·.status) = some Status.unbonding :=
+  ⟨by decide, by decide, by decide, by decide, by decide, by decide⟩
 
 end PoaVerif.Props.C03
